@@ -8,6 +8,7 @@
 package clidrv
 
 import (
+	"fmt"
 	"os"
 	"path/filepath"
 	"strings"
@@ -34,6 +35,72 @@ type Opts struct {
 	// OnTick, if set, is called before loop iteration k (k = 0, 1, …) of a repeating command,
 	// e.g. to change the file between two refreshes of `klog today --follow`.
 	OnTick func(k int)
+	// OSStdin, if non-nil, is what the process' standard input delivers while the command runs (klog reads piped
+	// input from os.Stdin itself when no file argument is given); nil = an empty character device (/dev/null).
+	OSStdin *string
+}
+
+// Zone dimension. klog's behaviour may depend on the wall-clock READING (year .. minute) of its clock, never on the
+// zone that reading is expressed in. The checks state their clocks as UTC wall-clock readings; each call re-expresses
+// its clock readings - same year .. nanosecond fields - in one of five fixed-offset zones, chosen by a hash of the
+// reading and the command (deterministic per case, so replays see the same zone). Clocks given in another location
+// (C13's daylight-saving family) are left alone. KV_ZONES=off disables it.
+var zones = []*gotime.Location{gotime.UTC, gotime.FixedZone("UTC+2", 2*3600), gotime.FixedZone("UTC-5", -5*3600), gotime.FixedZone("UTC+14", 14*3600), gotime.FixedZone("UTC-11", -11*3600)}
+
+var zonesOff = os.Getenv("KV_ZONES") == "off"
+
+func zoneFor(now gotime.Time, key string) *gotime.Location {
+	if zonesOff || now.Location() != gotime.UTC {
+		return nil
+	}
+	h := fw.HashMix(fw.HashString(key), uint64(now.Unix()))
+	return zones[int(h%uint64(len(zones)))]
+}
+
+func rezone(t gotime.Time, z *gotime.Location) gotime.Time {
+	if z == nil || t.Location() != gotime.UTC {
+		return t
+	}
+	return gotime.Date(t.Year(), t.Month(), t.Day(), t.Hour(), t.Minute(), t.Second(), t.Nanosecond(), z)
+}
+
+func rezoneOpts(o *Opts, key string) {
+	z := zoneFor(o.Now, key)
+	if z == nil {
+		return
+	}
+	o.Now = rezone(o.Now, z)
+	ticks := make([]gotime.Time, len(o.TickTimes))
+	for i, t := range o.TickTimes {
+		ticks[i] = rezone(t, z)
+	}
+	o.TickTimes = ticks
+	if o.Clock != nil {
+		inner := o.Clock
+		o.Clock = func() gotime.Time { return rezone(inner(), z) }
+	}
+}
+
+// withStdin runs f with os.Stdin replaced as o.OSStdin says (workers are single-threaded per case).
+func withStdin(o Opts, f func()) {
+	old := os.Stdin
+	defer func() { os.Stdin = old }()
+	var in *os.File
+	var err error
+	if o.OSStdin == nil {
+		in, err = os.Open(os.DevNull)
+	} else {
+		p := filepath.Join(fw.Scratch(), "stdin.txt")
+		if err = os.WriteFile(p, []byte(*o.OSStdin), 0644); err == nil {
+			in, err = os.Open(p)
+		}
+	}
+	if err != nil {
+		panic(err)
+	}
+	defer in.Close()
+	os.Stdin = in
+	f()
 }
 
 type Result struct {
@@ -96,6 +163,7 @@ func Run(home string, o Opts, args ...string) (res Result) {
 	homeFile := app.NewFileOrPanic(home)
 	out := &strings.Builder{}
 	opts := o
+	rezoneOpts(&opts, strings.Join(args, "\x00"))
 	klogmain.ContextWrapper = func(c app.Context) app.Context { return &wrapCtx{Context: c, o: &opts, out: out} }
 	cliutil.VerifRepeatInterval = gotime.Microsecond
 	cliutil.VerifRepeatStop = func(done int64) bool {
@@ -108,12 +176,14 @@ func Run(home string, o Opts, args ...string) (res Result) {
 		}
 		return false
 	}
-	res.Panicked, res.PanicVal, res.Stack = fw.Try(func() {
-		code, err := klogmain.Run(homeFile, app.Meta{Specification: "spec", License: "license", Version: "v0", SrcHash: "abcdef1"}, cfg, args)
-		res.Code = code
-		if err != nil {
-			res.Err = err.Error()
-		}
+	withStdin(o, func() {
+		res.Panicked, res.PanicVal, res.Stack = fw.Try(func() {
+			code, err := klogmain.Run(homeFile, app.Meta{Specification: "spec", License: "license", Version: "v0", SrcHash: "abcdef1"}, cfg, args)
+			res.Code = code
+			if err != nil {
+				res.Err = err.Error()
+			}
+		})
 	})
 	res.Stdout = out.String()
 	return res
@@ -159,6 +229,7 @@ func Exec(home string, o Opts, cmd Runner) (res Result) {
 	}
 	out := &strings.Builder{}
 	opts := o
+	rezoneOpts(&opts, fmt.Sprintf("%T", cmd))
 	styler := tf.NewStyler(cfg.ColourScheme.Value())
 	var ctx app.Context = &wrapCtx{Context: app.NewContext(app.NewFileOrPanic(home), app.Meta{Version: "v0"}, styler, cfg), o: &opts, out: out}
 	cliutil.VerifRepeatInterval = gotime.Microsecond
@@ -172,17 +243,19 @@ func Exec(home string, o Opts, cmd Runner) (res Result) {
 		}
 		return false
 	}
-	res.Panicked, res.PanicVal, res.Stack = fw.Try(func() {
-		rErr := cmd.Run(ctx)
-		if rErr == nil {
-			return
-		}
-		res.Code = rErr.Code().ToInt()
-		if pe, ok := rErr.(app.ParserErrors); ok {
-			res.Err = cliutil.PrettifyParsingError(pe, styler).Error()
-		} else {
-			res.Err = cliutil.PrettifyAppError(rErr, cfg.IsDebug.Value()).Error()
-		}
+	withStdin(o, func() {
+		res.Panicked, res.PanicVal, res.Stack = fw.Try(func() {
+			rErr := cmd.Run(ctx)
+			if rErr == nil {
+				return
+			}
+			res.Code = rErr.Code().ToInt()
+			if pe, ok := rErr.(app.ParserErrors); ok {
+				res.Err = cliutil.PrettifyParsingError(pe, styler).Error()
+			} else {
+				res.Err = cliutil.PrettifyAppError(rErr, cfg.IsDebug.Value()).Error()
+			}
+		})
 	})
 	res.Stdout = out.String()
 	return res
